@@ -80,10 +80,12 @@ def correspond(ctx):
 
 
 # ------------------------------------------------------------------------------------------------
-def t_projection(D, N, L, seed):
+def t_projection(D, N, L, seed, amp=1.0, mean=0.0):
+    """amp: amplitude of the field (the projection is linear: tiny fields are projected like O(1) fields); mean: a uniform background flow is
+    divergence-free and must survive the projection"""
     ex, jnp = _ex()
     rng = np.random.default_rng(seed)
-    v = nyqfree(rng.standard_normal((D,) + (N,) * D), D, N)
+    v = amp * (nyqfree(rng.standard_normal((D,) + (N,) * D), D, N) + mean * np.arange(1, D + 1).reshape((D,) + (1,) * D))
     dop = ex.spectral.build_derivative_operator(D, L, N)
     ler = ex.nonlin_fun.Leray(D, N, derivative_operator=dop)
     vh = ex.fft(jnp.asarray(v))
@@ -96,8 +98,10 @@ def t_projection(D, N, L, seed):
     w2 = np.asarray(ex.spectral.make_incompressible(jnp.asarray(w)))
     fix = np.max(np.abs(w2 - w)) / np.max(np.abs(v))
     divw = np.max(np.abs(divergence_hat(ex.fft(jnp.asarray(w)), D, L, N))) / scale
-    ok = max(div, idem, agree, fix, divw) < 1e-10
-    return ok, f"D={D} N={N} L={L}: div(Leray)={div:.1e} idempotence={idem:.1e} make_incompressible vs Leray={agree:.1e} fixes div-free={fix:.1e} div(make_incompressible)={divw:.1e}"
+    # a uniform flow plus a divergence-free part is unchanged; the mean of every component is kept
+    mk = np.max(np.abs(w.mean(axis=tuple(range(1, D + 1))) - v.mean(axis=tuple(range(1, D + 1))))) / np.max(np.abs(v))
+    ok = max(div, idem, agree, fix, divw, mk) < 1e-10
+    return ok, f"D={D} N={N} L={L} amp={amp} mean={mean}: mean kept={mk:.1e} div(Leray)={div:.1e} idempotence={idem:.1e} make_incompressible vs Leray={agree:.1e} fixes div-free={fix:.1e} div(make_incompressible)={divw:.1e}"
 
 
 def t_convection_div_free(N, L, seed, kolmogorov, frac=2 / 3):
@@ -140,6 +144,9 @@ def witness(ctx):
     for D, N in ([(2, 7), (2, 8), (3, 5), (3, 6)] if not deep else [(2, 7), (2, 8), (2, 9), (2, 15), (3, 5), (3, 6), (3, 7)]):
         for L in (1.0, 2 * np.pi, 20.0):
             ctx.check("projection", dict(D=D, N=N, L=L, seed=ctx.seed))
+        ctx.check("projection", dict(D=D, N=N, L=3.0, seed=ctx.seed + 1, amp=1e-9, mean=0.0))
+        ctx.check("projection", dict(D=D, N=N, L=3.0, seed=ctx.seed + 2, amp=1.0, mean=0.7))
+        ctx.check("projection", dict(D=D, N=N, L=1.0, seed=ctx.seed + 3, amp=1e6, mean=-1.3))
     for N in ((6, 7) if not deep else (6, 7, 8, 9)):
         for L in (1.0, 20.0):
             for ko in (False, True):
